@@ -411,6 +411,21 @@ func (c *Conn) Consume(n int) {
 	c.signal()
 }
 
+// ConsumeTo marks the first n client bytes as read by the peer process.
+//
+//go:norace
+func (c *Conn) ConsumeTo(n int) {
+	c.lock()
+	defer c.unlock()
+	if n > len(c.Out) {
+		n = len(c.Out)
+	}
+	if n > c.Consumed {
+		c.Consumed = n
+		c.signal()
+	}
+}
+
 // Snapshot of client->server bytes (copy).
 //
 //go:norace
